@@ -980,6 +980,11 @@ class Ev:
             return self.run(s.body if c else s.orelse)
         if isinstance(s, ast.With):
             return self.run(s.body)
+        if isinstance(s, ast.Try):
+            # the normal path: body, else, finally (handlers describe the
+            # exceptional path, which the evaluated laws do not cover)
+            return self.run(list(s.body) + list(s.orelse) +
+                            list(s.finalbody))
         if isinstance(s, ast.For):
             items = self.iterate(s.iter)
             if items is None:
